@@ -312,8 +312,14 @@ check(World &w, const char *when)
 	// a pending socket-level receive would have been given the message: nothing can be waiting then
 	bool must = w.exact && w.lower >= 1 && !sock_level_pending(w);
 	long held = w.lower;
-	uint64_t k0 = sim_block_count();
+	uint64_t k0 = sim_block_count(), st0 = sim_stall_total_ns();
 	int      rv = nb_recv(&w, when);
+	if (sim_stall_total_ns() != st0) {
+		// stalled inside the call (possibly past the quiescence horizon): the premise is gone, nothing is judged
+		sim_probe("c15_stalled_inside_call");
+		readable = -1;
+		must     = false;
+	}
 	if (rv == 0) { // nb_recv counted it under takes; apply it to the bound at once
 		w.takes--;
 		if (w.lower > 0)
